@@ -6,7 +6,7 @@ from typing import List, Union
 
 from vf.cond import cond
 
-from .common import Environment, LiquidError, concrete_int
+from .common import drive, Environment, LiquidError, concrete_int
 
 from liquid2.messages import extract_from_template  # noqa: E402
 
@@ -99,17 +99,20 @@ N = Union[int, str, None, bool, List[int]]
     pre=["not isinstance(n, str) or (len(n) == 1 and n in '0123x.')", "isinstance(n, bool) or not isinstance(n, int) or -2 <= n <= 3", "not isinstance(n, list) or (len(n) <= 1 and all(0 <= k <= 1 for k in n))"],
     timeout=200,
     shard={"i": list(range(len(CORPUS)))},
-    covers="every (family, context, singular, plural) looked up at run time for literal operands appears in extract_from_template() with the same family and the line of the originating tag/expression; extraction does not raise (empty and comment-only templates included); translator comments attach only to a message on the comment's own or next line",
+    covers="every (family, context, singular, plural) looked up at run time for literal operands (by render() or render_async()) appears in extract_from_template() with the same family and the line of the originating tag/expression; extraction does not raise (empty and comment-only templates included); translator comments attach only to a message on the comment's own or next line",
     bounds="16 templates: t/gettext/ngettext/pgettext/npgettext filters in output, assign, echo, ternary branches, if/for/unless/case/with/capture bodies, liquid tag lines, template strings; translate/plural blocks with count and context; count n: int -2..3 | 1-character str over {0 1 2 3 x .} (numeric and non-numeric) | nil | bool | list of <= 1 int; branch condition x: bool",
-    grid=lambda: [(i, n, x) for i in range(len(CORPUS)) for n in (0, 1, 2, -1, "0", "2", "x", ".", None, True, False, [], [1]) for x in (False, True)],
+    grid=lambda: [(i, n, x, a) for i in range(len(CORPUS)) for n in (0, 1, 2, -1, "0", "2", "x", ".", None, True, False, [], [1]) for x in (False, True) for a in (False, True)],
 )
-def d_cover(i: int, n: N, x: bool) -> bool:
+def d_cover(i: int, n: N, x: bool, is_async: bool) -> bool:
     ext = EXTRACTED[i]
     if ext is None:
         return False
     rec = Rec()
     try:
-        TEMPLATES[i].render(translations=rec, n=n, x=x, y="data")
+        if is_async:
+            drive(TEMPLATES[i].render_async(translations=rec, n=n, x=x, y="data"))
+        else:
+            TEMPLATES[i].render(translations=rec, n=n, x=x, y="data")
     except LiquidError:
         pass
     src = CORPUS[i]
